@@ -214,7 +214,7 @@ CheckSint(i) ==
     IF e.res = "panic" \/ (~fits /\ e.res # "err") \/ (fits /\ e.res # "ok" /\ e.ty \notin {"i128", "u128"})
     THEN Report(i, "sint-out-verdict", [ty |-> e.ty, route |-> e.route, lit |-> e.lit, impl |-> e.res]) /\ FALSE
     ELSE e.res = "ok" =>
-         LET p == IF e.route = "toml::Value::try_from" THEN ParseDocument(<<120, 61>> \o e.text) ELSE ParseDocument(e.text) IN
+         LET p == IF e.route \in {"toml::Value::try_from", "toml::Value::deserialize"} THEN ParseDocument(<<120, 61>> \o e.text) ELSE ParseDocument(e.text) IN
          IF p.res = "ok" /\ \E l \in {p.tree.v[1].val} \cup (IF p.tree.v[1].val.k = "t" THEN {p.tree.v[1].val.v[1].val} ELSE {}) :
                              l.k = "i" /\ l.neg = e.lit.neg /\ l.d = e.lit.d
          THEN TRUE ELSE Report(i, "sint-out-value", [ty |-> e.ty, route |-> e.route, lit |-> e.lit, text |-> e.text]) /\ FALSE
@@ -447,6 +447,9 @@ CheckSerde(i) ==
       decOk(g) ==
           LET r == e.dec[g] IN
           IF r.res = "ok" /\ r.same THEN TRUE ELSE Report(i, "serde-dec", [route |-> r.route, res |-> r.res, same |-> r.same]) /\ FALSE
+      vdecOk(g) ==
+          LET r == e.vdec[g] IN
+          IF r.res = "ok" /\ r.same THEN TRUE ELSE Report(i, "serde-dec", [route |-> r.route, res |-> r.res, same |-> r.same]) /\ FALSE
       againOk == IF e.again.res = "ok" /\ e.again.text = main.text THEN TRUE ELSE Report(i, "serde-nondeterministic", "to_string twice") /\ FALSE
       fixedOk == IF e.fixed.res = "ok" /\ e.fixed.text = main.text THEN TRUE ELSE Report(i, "serde-fixpoint", [text |-> main.text, second |-> e.fixed.text]) /\ FALSE
       tfOk ==
@@ -458,6 +461,8 @@ CheckSerde(i) ==
   IN AllTrue({AllTrue({encOk(g) : g \in 1..Len(e.enc)})}
              \cup (IF exp.st = "ok" /\ main.res = "ok"
                    THEN {AllTrue({decOk(g) : g \in 1..Len(e.dec)}), againOk, fixedOk} ELSE {})
+             \* the single-value routes: whenever the value is encodable as a value at all
+             \cup (IF Enc(e.sdm).st = "ok" /\ e.try_from.res = "ok" THEN {AllTrue({vdecOk(g) : g \in 1..Len(e.vdec)})} ELSE {})
              \cup {tfOk})
 
 \* ---- C20: visitor callback logs against Walk.Expected ----
@@ -535,17 +540,32 @@ EditSteps(i, steps, j, prev, loose0) ==
   IF j > Len(steps) THEN TRUE
   ELSE LET st == steps[j]
            o == FixEditOp(st)
+           p0 == ParseDocument(prev)
+           \* tables without a position: made through the API, or implicit ones that become visible when they
+           \* receive a pair (they are printed after whichever table the map visits before them)
            loose == loose0 \/ (o.op = "insert" /\ o.v.k = "t") \/ o.op \in {"to_table", "aot_push"}
+                    \/ (p0.res = "ok" /\ LET tb == GetAt(p0.tree, o.path) IN tb.k = "t" /\ tb.def = "implicit")
        IN IF st.res = "skip" THEN TRUE          \* the API has no such operation at this position (e.g. push on a table)
           ELSE IF st.res # "ok" THEN Report(i, "edit-panic", [step |-> j, op |-> o.op]) /\ FALSE
           ELSE LET pp == ParseDocument(prev)
                    pn == ParseDocument(st.text)
                IN IF pp.res # "ok" THEN TRUE
                   ELSE IF ~Enabled(Plain(pp.tree), o) THEN Report(i, "edit-not-enabled", [step |-> j, op |-> o.op]) /\ FALSE
+                  \* known finding F21: the key of an inline table keeps the comment / blank lines above its pair when
+                  \* the value is turned into a standard table, and the header prints them inside the brackets
+                  ELSE IF pn.res # "ok" /\ o.op = "to_table"
+                          /\ \E x \in 1..Len(KeyPrefixOf(prev, pp, Append(o.path, o.key))) : KeyPrefixOf(prev, pp, Append(o.path, o.key))[x] \notin {32, 9}
+                       THEN Report(i, "edit-invalid-to-table-key-decor", [step |-> j, op |-> o.op, path |-> o.path, key |-> o.key]) /\ FALSE
                   ELSE IF pn.res # "ok" THEN Report(i, "edit-invalid", [step |-> j, op |-> o.op, text |-> st.text, why |-> pn.why, at |-> pn.at]) /\ FALSE
                   ELSE LET before == Plain(pp.tree)
                            after == Plain(pn.tree)
-                           groups == PieceGroups(prev, pp, o)
+                           \* a table that was implicit (or absent) in the start document is spelled with a header only
+                           \* while it has pairs of its own (visit_table hides implicit tables without pairs)
+                           t0 == LET q == ParseDocument(Ev[i].start) IN IF q.res = "ok" THEN GetAt(q.tree, o.path) ELSE Missing
+                           ta == GetAt(pn.tree, o.path)
+                           hv == IF (t0.k = "missing" \/ (t0.k = "t" /\ t0.def \in {"implicit", "dotted"}))
+                                    /\ (ta.k # "t" \/ BodyKeys(ta.v) = <<>>) THEN o.path ELSE NoPath
+                           groups == PieceGroupsH(prev, pp, o, hv)
                            pieces == FlattenG(groups)
                            missG == IF loose /\ o.op # "sort_values" THEN FirstMissingG(st.text, groups, 1) ELSE <<0, 0>>
                            missF == IF loose /\ o.op # "sort_values" THEN 0 ELSE FirstMissing(st.text, pieces, 1, 1, o.op # "sort_values")
@@ -554,7 +574,7 @@ EditSteps(i, steps, j, prev, loose0) ==
                        IN /\ AllTrue({
                                IF SameContent(ApplyOp(before, o), after) THEN TRUE
                                \* known finding F20: a dotted-key table that loses its last key vanishes from the printed document
-                               ELSE IF o.op \in {"remove", "clear"} /\ GetAt(ApplyOp(before, o), o.path).v = <<>>
+                               ELSE IF o.op \in {"remove", "clear", "aot_remove"} /\ GetAt(ApplyOp(before, o), o.path).v = <<>>
                                        /\ SameContent(DropEmptyTables(ApplyOp(before, o)), DropEmptyTables(after))
                                     THEN Report(i, "edit-content-emptied-table-vanishes", [step |-> j, op |-> o.op, path |-> o.path, key |-> o.key]) /\ FALSE
                                ELSE Report(i, "edit-content", [step |-> j, op |-> o.op, path |-> o.path, key |-> o.key, text |-> st.text]) /\ FALSE,
